@@ -195,6 +195,8 @@ type NodeOpt struct {
 	Extra     map[string]int64 // extended / MIG resources
 }
 
+var processStart = time.Now().UTC()
+
 func MkNode(o NodeOpt) *corev1.Node {
 	if o.CPU == "" {
 		o.CPU = "8"
@@ -329,8 +331,10 @@ func MkPodGroup(o PGOpt) *schedv2alpha2.PodGroup {
 	case "old":
 		pg.Annotations[LastStartAnno] = Epoch.Format(time.RFC3339)
 	case "fresh":
-		// "fresh" = far in the future relative to any run of this harness: always inside any min-runtime
-		pg.Annotations[LastStartAnno] = time.Date(2999, 1, 1, 0, 0, 0, 0, time.UTC).Format(time.RFC3339)
+		// "fresh" = started a minute before this process did: inside a min-runtime of 1000h, outside
+		// one of 0s. (A stamp in the future would be "inside" even a zero min-runtime and hide every
+		// case in which a recently started workload is NOT protected.)
+		pg.Annotations[LastStartAnno] = processStart.Add(-time.Minute).Format(time.RFC3339)
 	}
 	for k, v := range o.Annotations {
 		pg.Annotations[k] = v
